@@ -220,8 +220,43 @@ def run(prop, seed, budget, ctx):
             if res.errors or res.data != want:
                 fail("execution-differs-from-serialize", info=dict(info, query_kind=q.split("{")[1].strip().split(" ")[0].rstrip("0123456789").split("(")[0]), query=q,
                      errors=[str(e) for e in res.errors or []][:2], data=res.data, expected=want)
+    # resolvers declared on a generic base and inherited by non-generic subclasses: the type variable is the subclass's argument
+    fam3 = ["from dataclasses import dataclass, field", "from typing import *", "from apischema.graphql import resolver", "T = TypeVar('T')", ""]
+    n3 = 8 * budget; ARGS3 = [("int", "Int", "3", 3), ("str", "String", "'s'", "s"), ("bool", "Boolean", "True", True), ("float", "Float", "1.5", 1.5)]
+    picks = []
+    for i in range(n3):
+        a1, a2 = rnd.sample(ARGS3, 2); picks.append((a1, a2)); deep = i % 2 == 0
+        fam3 += ["@dataclass", f"class Box{i}(Generic[T]):", "    content: T",
+                 "    @resolver", "    def first(self) -> T:", "        return self.content",
+                 "    @resolver", "    def repeat(self, times: int) -> List[T]:", "        return [self.content] * times",
+                 "    @resolver", "    def same_as(self, other: T) -> bool:", "        return other == self.content",
+                 "    @resolver", "    def maybe(self) -> Optional[T]:", "        return None", ""]
+        for k, a in enumerate((a1, a2)):
+            fam3 += ["@dataclass", f"class Box{i}_{k}(Box{i}[{a[0]}]):", "    pass", ""]
+            if deep: fam3 += ["@dataclass", f"class Box{i}_{k}d(Box{i}_{k}):", "    extra: int = 0", ""]
+            cls = f"Box{i}_{k}d" if deep else f"Box{i}_{k}"
+            fam3 += [f"def box{i}x{k}() -> {cls}:", f"    return {cls}({a[2]})", ""]
+    m3 = build_module(fam3, f"gqlfam3_{seed}")
+    for i in range(n3):
+        info = {"family3": i, "arguments": [a[0] for a in picks[i]], "two_levels": i % 2 == 0}
+        evaluations += 1; distinct.add(("family3", i))
+        try: sch = graphql_schema(query=[getattr(m3, f"box{i}x0"), getattr(m3, f"box{i}x1")])
+        except Exception as e:
+            fail("schema-generation-raises:" + type(e).__name__, info=info, msg=str(e)[:200]); continue
+        for k, a in enumerate(picks[i]):
+            cname = f"Box{i}_{k}d" if i % 2 == 0 else f"Box{i}_{k}"
+            fields = sch.type_map[cname].fields
+            got = {"content": str(fields["content"].type), "first": str(fields["first"].type), "repeat": str(fields["repeat"].type), "maybe": str(fields["maybe"].type),
+                   "sameAs.other": str(fields["sameAs"].args["other"].type)}
+            want = {"content": a[1] + "!", "first": a[1] + "!", "repeat": f"[{a[1]}!]!", "maybe": a[1], "sameAs.other": a[1] + "!"}
+            if got != want: fail("named-type-does-not-mirror-the-model", info=dict(info, cls=cname), got=got, want=want)
+            lit = json.dumps(a[3])
+            q = f"{{ box{i}x{k} {{ content first repeat(times: 2) sameAs(other: {lit}) maybe }} }}"
+            res = graphql.graphql_sync(sch, q); evaluations += 1
+            wantd = {f"box{i}x{k}": {"content": a[3], "first": a[3], "repeat": [a[3], a[3]], "sameAs": True, "maybe": None}}
+            if res.errors or res.data != wantd: fail("execution-differs-from-serialize", info=dict(info, cls=cname), query=q, errors=[str(e) for e in res.errors or []][:2], data=res.data, expected=wantd)
     return {"evaluations": evaluations, "distinct_nontrivial": len(distinct),
-            "rule": "generated query resolvers: return types over primitives / Optional / List / enums / dataclasses nested to depth 3, one optional argument "
+            "rule": "resolvers of a generic base inherited by non-generic subclasses (one and two levels); generated query resolvers: return types over primitives / Optional / List / enums / dataclasses nested to depth 3, one optional argument "
                     "(required int, defaulted int, Optional[int], List[int]); full-selection execution with valid and invalid arguments; plus families with a constrained NewType / input-object argument "
                     "under three error_handler settings and an interface chain (interface <- interface <- class, interface <- plain class <- class); families with a union of objects "
                     "used by three fields, input objects / parameters with list and dataclass defaults, one- and two-level flattened fields (the flattened class also queried alone in a third); non-trivial = "
